@@ -53,7 +53,7 @@ for pid in sorted(CHECKS):
 
 man = {
     "version": 1,
-    "setup_cmd": "/venv/bin/python harness/regen.py && cd lean && lake build ArimModel ArimProofs driver",
+    "setup_cmd": "/venv/bin/python harness/regen.py && cd lean && lake build ArimModel ArimProofs driver srcdriver",
     "hooks": {
         "guard": "ARIM_VERIF",
         "enable": "checks set ARIM_VERIF=1; no hook inside /repo is needed (environments are substituted from outside)",
